@@ -177,6 +177,25 @@ func noPrefixCopy(c *Ctx, r *Report, rule string, fns []*ssa.Function) {
 			if !fromParam {
 				return
 			}
+			// a prefix no longer than one length octet says (string(rest[:int(rest[0])])) is at most 255 octets: not the
+			// message up to here
+			small := true
+			for _, o := range phiLeaves(sl.High) {
+				if k, isK := constIntOf(o); isK && k >= 0 && k <= 255 {
+					continue
+				}
+				cv, isConv := o.(*ssa.Convert)
+				if !isConv {
+					small = false
+					continue
+				}
+				if fb, ok := cv.X.Type().Underlying().(*types.Basic); !ok || fb.Kind() != types.Uint8 {
+					small = false
+				}
+			}
+			if small {
+				return
+			}
 			n++
 			var copied []string
 			for _, ref := range *sl.Referrers() {
